@@ -20,18 +20,21 @@ fn load_known(path: &str) -> Vec<Known> {
             // known: property=C07 tag=<tag> <text>
             let mut prop = String::new();
             let mut tag = String::new();
+            let mut what: Option<String> = None;
             let mut text = vec![];
             for w in line["known:".len()..].split_whitespace() {
                 if let Some(p) = w.strip_prefix("property=") {
                     prop = p.into();
                 } else if let Some(t) = w.strip_prefix("tag=") {
                     tag = t.into();
+                } else if let Some(t) = w.strip_prefix("what=") {
+                    what = Some(t.into());
                 } else {
                     text.push(w);
                 }
             }
             if !prop.is_empty() && !tag.is_empty() {
-                out.push(Known { prop, tag, text: text.join(" ") });
+                out.push(Known { prop, tag, what, text: text.join(" ") });
             }
         }
     }
@@ -47,6 +50,11 @@ fn main() {
     let mut tlc_log = arg("--tlc-log").map(|p| std::fs::File::create(p).expect("tlc log"));
     let mut ctx = Ctx::new(&prop, &replay_dir, known);
     ctx.derive = std::env::args().any(|a| a == "--derive");
+    if let Some(s) = arg("--scratch") {
+        ctx.scratch = s;
+    }
+    ctx.fuzz_per_wire = arg("--fuzz-per-wire").and_then(|s| s.parse().ok()).unwrap_or(0);
+    ctx.rng = coset_verif_harness::gen::Rng(arg("--seed").and_then(|s| s.parse().ok()).unwrap_or(1));
     let stdin = std::io::stdin();
     let mut bad_lines = 0u64;
     for line in stdin.lock().lines() {
